@@ -15,6 +15,7 @@ from verifkit.core import *
 PID = "C09"
 FILES = HARNESS_BASE + ["lab_*.go", "src_*.go", "vir_builders.go", "c09_*.go"]
 CORPUS = os.path.join(VERIF, "corpus", "C09.tsv")
+CORPUS_PY = os.path.join(VERIF, "corpus", "C09py.tsv")
 
 
 def theorem_names():
@@ -44,6 +45,8 @@ def norm_impl(s):
     p = s.split(" ;; ")
     if len(p) == 3:
         return p[0] + " ;; " + canon(p[1]) + " ;; " + p[2]
+    if len(p) == 2:          # Python: ok ;; <json>
+        return p[0] + " ;; " + canon(p[1])
     return s
 
 
@@ -51,6 +54,8 @@ def norm_model(s):
     p = s.split("\t")
     if len(p) == 3:
         return p[0] + " ;; " + canon(p[1]) + " ;; " + p[2]
+    if s.startswith("ok {") or s.startswith("ok ["):   # pybuild: ok <json>
+        return "ok ;; " + canon(s[3:])
     return s
 
 
@@ -98,7 +103,7 @@ def run_stream(hb, stream, **kw):
         x = Run()
         p = r[0].split(" ", 5)
         x.lang = "go" if p[0] == "gobuild" else "python"
-        x.case = cases[p[1]]
+        x.case = cases[p[3]]     # the package column is the lab case id (schema ids carry a language suffix)
         x.builder, x.calls = p[4], p[5]
         x.req, x.impl, x.verdict, x.model = r[0], norm_impl(r[1]), r[2] if len(r) > 2 else "", norm_model(m)
         runs.append(x)
@@ -164,11 +169,11 @@ class Runner:
         c.cov["disagreements_checked"] += len(runs)
         return runs
 
-    def rerun(self, lines):
+    def rerun(self, lines, lang="go"):
         tmp = os.path.join(WORK, "c09_pin_%d.tsv" % os.getpid())
         open(tmp, "w").write("\n".join(lines) + "\n")
         try:
-            runs, skips, _, _ = run_stream(self.hb, "c09-lab", pinned=tmp, degrade=0)
+            runs, skips, _, _ = run_stream(self.hb, "c09-py-lab" if lang == "python" else "c09-lab", pinned=tmp, degrade=0)
         finally:
             os.remove(tmp)
         return [r for r in runs if "(call " in r.calls or True], skips
@@ -188,7 +193,7 @@ class Runner:
                 cands = [x for x in dict.fromkeys(cands) if x != best[0] and len(x) < len(best[0])]
                 if not cands:
                     break
-                runs, _ = self.rerun(cands[:30])
+                runs, _ = self.rerun(cands[:30], r.lang)
                 hit = None
                 for x in runs:
                     if x.verdict.startswith(want) and x.calls != "(build (ctor))":
@@ -221,14 +226,14 @@ class Runner:
                 f = line.split("\t")
                 c.violation({"kind": "oracle-failure", "stream": name, "oracle": r.verdict, "format": f[0], "defs": f[1], "veneers": f[2],
                              "builder": f[3], "calls": f[4], "impl": r.impl[:600], "model": r.model[:600], "case_text": stext,
-                             "pinned_line": line, "how": "./check C09 --replay <this file>"})
+                             "pinned_line": line, "lang": r.lang, "how": "./check C09 --replay <this file>"})
                 reported += 1
         if self.disagree and not reported:
             name, r, text = self.disagree[0]
             c.violation({"kind": "correspondence-broken", "stream": name,
                          "broken": "the Lean model of the generated builders no longer predicts the generated code (%s)" % r.lang,
                          "format": r.case.fmt, "defs": r.case.defs, "veneers": r.case.veneers, "builder": r.builder, "calls": r.calls,
-                         "impl": r.impl[:800], "model": r.model[:800], "oracle": r.verdict, "pinned_line": pinned_line(r),
+                         "impl": r.impl[:800], "model": r.model[:800], "oracle": r.verdict, "pinned_line": pinned_line(r), "lang": r.lang,
                          "n_disagreements": len(self.disagree)}, found_input=False)
 
 
@@ -263,7 +268,7 @@ def main():
     r = Runner(c, hb)
     if c.replay:
         rp = json.load(open(c.replay))
-        runs, skips = r.rerun([rp["pinned_line"]])
+        runs, skips = r.rerun([rp["pinned_line"]], rp.get("lang", "go"))
         bad = False
         for x in runs:
             print("replay:", x.lang, x.builder, x.calls)
@@ -287,10 +292,17 @@ def main():
     r.stream("c09-lab-deep", n=6 if quick else 24, seed=c.seed + 13, deep=1, tier=c.tier)
     # two cog packages: members referencing constants of a library package and of their own package
     r.stream("c09-lab-lib", n=6 if quick else 20, seed=c.seed + 17, lib=1, tier=c.tier)
+    # Python builders: same runs, `pybuild` on the Lean side
+    if os.path.exists(CORPUS_PY):
+        r.stream("c09-py-pinned", stream="c09-py-lab", pinned=CORPUS_PY, degrade=0)
+    r.stream("c09-py-lab", stream="c09-py-lab", n=10 if quick else 50, seed=c.seed + 3, veneers=65, tier=c.tier)
+    r.stream("c09-py-lab-alias", stream="c09-py-lab", n=5 if quick else 20, seed=c.seed + 9, veneers=40,
+             switches="+def.scalar,+def.collection", formats="jsonschema,openapi", tier=c.tier)
     r.report()
 
     st = r.stats
     c.oblige("the model covers the streams (>= 90% of runs inside the model)", st["compared"] >= 0.9 * max(1, st["runs"]), dict(st))
+    c.oblige("both languages are exercised", st["runs:go"] > 0 and st["runs:python"] > 0, dict(st))
     c.oblige("the oracle's reference interpreter covers the streams (gave up on < 10% of runs)",
              st["oracle_gave_up"] <= 0.1 * max(1, st["runs"]), dict(st))
     need = ["method.append", "method.index", "nilcheck", "path.nested", "value.envelope", "value.constant", "arg.builder",
